@@ -569,6 +569,30 @@ func caseC08(c *Ctx) {
 		}
 		hist = append(hist, "external: created a subset of the node paths")
 	}
+	// ---- step 1b: now and then the same Verify call was made before, on the directory as it
+	// was then; afterwards the directory may be removed and made anew under the same name
+	if origin != "target-missing" && origin != "target-is-file" && c.Chance(1, 6) {
+		env0 := &Env{Doc: doc, Reader: noReaderFault, Writer: noWriterFault, Cb: noCbFault, Disk: &DiskPlan{Jail: j, Target: target, FailAt: -1}}
+		if op.FromRoot {
+			env0.Tree = forest[0]
+		}
+		c.Direct(op, env0)
+		hist = append(hist, "an earlier Verify call with the same options (result ignored)")
+		c.st.Count("earlier-verify-call")
+		if c.Chance(1, 2) {
+			os.RemoveAll(target)
+			os.MkdirAll(target, 0o755)
+			for _, r := range forest {
+				for _, p := range r.Paths("") {
+					if c.Draw(3) != 0 {
+						os.MkdirAll(filepath.Join(target, p), 0o755)
+					}
+				}
+			}
+			justMade = false
+			hist = append(hist, "external: rm -r of the target directory, then made anew with a subset of the node paths")
+		}
+	}
 	// ---- step 2: external edits
 	edits := 0
 	if !justMade || c.Chance(1, 2) {
